@@ -142,6 +142,8 @@ func c06RunQuic(p *c06QuicPlan, res *c06QuicResult) (fail string) {
 	if !poisoned && !v2Known && res.CompleteAt >= 0 && res.Held > 0 {
 		if p.Want == "" && vkKnown("F-C06-3") && !c06NoExclusion {
 			res.Excluded = append(res.Excluded, "F-C06-3")
+		} else if p.NoExt && vkKnown("F-C06-4") && !c06NoExclusion {
+			res.Excluded = append(res.Excluded, "F-C06-4")
 		} else {
 			return fmt.Sprintf("WITHHELD: the ClientHello is complete after datagram %d (name carried: %q) but NeedMore() stays true: %d of %d datagrams are never handed to the relay",
 				res.CompleteAt, p.Want, res.Held, len(p.Datagrams))
@@ -279,4 +281,36 @@ func errWithheld(fail string) error {
 		return errC06Withheld
 	}
 	return errors.New(fail)
+}
+
+// TestC06_Finding_FC064: a complete, minimal ClientHello that ends after the
+// compression methods (no extension block) in a single Initial. It can never yield
+// a name, so the verdict is final and the sniffer must not ask for more.
+func TestC06_Finding_FC064(t *testing.T) {
+	body := append([]byte{3, 3}, make([]byte, 32)...)
+	body = append(body, 0, 0, 2, 0x13, 0x01, 1, 0)
+	hello := append([]byte{1, 0, 0, byte(len(body))}, body...)
+	if r := c06RefHello(hello); !r.WellFormed || !r.NoExt {
+		t.Fatalf("HARNESS BUG: reference does not accept the extension-less hello: %+v", r)
+	}
+	p := &c06QuicPlan{Version: c06QuicV1, DCID: c06MustHex("8394c8f03e515708"), Hello: hello, Want: "", NoExt: true, Style: "pool",
+		Datagrams: [][]byte{c06RFCDatagram(c06QuicV1, c06CryptoFrame(0, hello, 0, 0))}, Ranges: [][][2]int{{{0, len(hello)}}}, Corrupt: []string{""}, NFrames: 1, NPackets: 1}
+	res := &c06QuicResult{}
+	c06NoExclusion = true
+	fail := c06RunQuic(p, res)
+	c06NoExclusion = false
+	known := vkKnown("F-C06-4")
+	switch {
+	case fail == "" && known:
+		t.Logf("F-C06-4 is listed as known but no longer reproduces")
+	case fail == "":
+	case known && errors.Is(errWithheld(fail), errC06Withheld):
+		t.Logf("F-C06-4 reproduced: %s", fail)
+		vkKnownReproduced("F-C06-4")
+	default:
+		t.Fatalf("F-C06-4: %s", fail)
+	}
+	vkCase("C06.findings", "F-C06-4", func() any {
+		return map[string]any{"finding": "F-C06-4", "hello_hex": fmt.Sprintf("%x", hello), "result": fail}
+	}, "F-C06-4")
 }
